@@ -157,6 +157,43 @@ def first_factor(node):
     return node.kids[0] if node.kind == "prod" else node.kids[0].kids[0]
 
 
+# variable names of more than one character (the library must treat a name as one variable, not as characters)
+LONG = {"t": "tau", "D": "mu", "s": "sig", "x": "pos", "y": "xi", "z": "q3"}
+geomgen.DIM.update({LONG[k_]: geomgen.DIM[k_] for k_ in LONG})
+
+
+def rename_term(t, mp):
+    k = t[0]
+    if k == "c":
+        return t
+    if k == "v":
+        return ("v", mp.get(t[1], t[1]), t[2])
+    if k == "n":
+        return ("n", rename_term(t[1], mp))
+    return (k, rename_term(t[1], mp), rename_term(t[2], mp))
+
+
+def rename_node(node, mp):
+    return Node(node.kind, mp.get(node.var, node.var) if node.var else node.var,
+                [PF([rename_term(t, mp) for t in p_.terms]) for p_ in node.pfs], [rename_node(k_, mp) for k_ in node.kids], node.flags)
+
+
+def rename_case(case, mp):
+    r = lambda n_: mp.get(n_, n_)
+    rd = lambda d_: {r(k_): v_ for k_, v_ in d_.items()}
+    out = dict(case)
+    out["dom"] = rename_node(geomgen.from_json(case["dom"]), mp).describe()
+    out["params"] = [r(p_) for p_ in case["params"]]
+    out["partner"] = r(case["partner"]) if case["partner"] else case["partner"]
+    out["sigma"] = rd(case["sigma"])
+    out["stage_b"] = [r(p_) for p_ in case["stage_b"]]
+    out["prow"] = [rd(p_) for p_ in case["prow"]]
+    out["rows"] = [(rd(pt), j) for pt, j in case["rows"]]
+    out["free"] = [r(p_) for p_ in case["free"]]
+    out["long_names"] = True
+    return out
+
+
 def frs(d):
     return {k: [str(a) for a in val] for k, val in d.items()}
 
@@ -304,10 +341,15 @@ def make_case(ctx, idx):
                             extra.append(({"x": [f32(a) for a in p], partner: [f32(w) + rng.choice([Fr(1, 16), Fr(-1, 16), Fr(1, 64)])]}, j))
         rng.shuffle(extra)
         rows += extra[: ctx.scale(24, 48)]
-    return dict(id=idx, mode=mode, dom=node.describe(), params=params, partner=partner,
+    case = dict(id=idx, mode=mode, dom=node.describe(), params=params, partner=partner,
                 sigma=frs(sigma), stage_b=stage_b, prow=[frs(p) for p in prow], k=k,
                 rows=[(frs(pt), j) for pt, j in rows], free=free,
                 n_sample=rng.choice([3, 4, 7]))
+    if rng.random() < 0.3:
+        # every variable gets a name of several characters, or only some of them
+        mp = dict(LONG) if rng.random() < 0.5 else {k_: LONG[k_] for k_ in LONG if rng.random() < 0.5}
+        case = rename_case(case, mp)
+    return case
 
 
 # ---------------------------------------------------------------------------------------------
@@ -515,8 +557,9 @@ def run_impl(case, nonempty=True):
         probes = dict(contains=lambda prm: dom._contains(pts, prm), volume=lambda prm: dom.volume(prm), bbox=lambda prm: dom.bounding_box(prm))
         if dependent_product:
             probes.pop("volume"); probes.pop("bbox")
-        exact = dict(enough=True, unneeded=[], own=sorted(set(decl) & set(node.vars())))
-        if exact["own"] or not set(decl) <= set(envs_rows[0]):
+        exact = dict(enough=True, unneeded=[], own=sorted(set(decl) & set(node.vars())),
+                     unknown=sorted(set(decl) - set(node.vars()) - set(node.free_vars()) - set(case["params"]) - set(sigma)))
+        if exact["own"] or exact["unknown"] or not set(decl) <= set(envs_rows[0]):
             return exact
         _, err = attempt(probes["contains"], mk_params(tp, torch, decl, envs_rows))
         if err and not err.startswith("timeout"):
@@ -703,6 +746,10 @@ def judge(case, impl, replies, sreplies, smeta, rep):
     # oracle: exactly the needed ones
     for who, ex, nv in ((call, impl.get("exact"), impl.get("nv1")), ("D", impl.get("exact0"), impl.get("nv0"))):
         if ex is None or nv is None:
+            continue
+        if ex.get("unknown"):
+            rep.fail(f"{who} declares {ex['unknown']} as necessary variables, which are not variables of the expression at all "
+                     f"(necessary_variables = {nv}; the parameter functions take {node.free_vars()})", short(case, of=who))
             continue
         if ex["own"]:
             rep.fail(f"{who} declares its own coordinate variable(s) {ex['own']} as necessary parameters (necessary_variables = {nv})", short(case, of=who))
@@ -946,6 +993,9 @@ def run(ctx, rep, cases=None):
                 "single-boundary-point nodes), a random non-empty subset of the parameters fixed by D(**values) (single and two-stage), "
                 "0-3 remaining parameter rows; queries = random dyadic points + points at relative distance 0, ±1e-1..±1e-3 from the "
                 "edges; non-trivial = the expression depends on a fixed variable; distinct = distinct (expression, fixed values, rows)")
+    common.use_repo()
+    import torch
+    torch.set_num_threads(1)      # tiny tensors: intra-op threads only cost time when the machine is busy
     if cases is None:
         cases = [make_case(ctx, i) for i in range(ctx.scale(240, 3000))]
     spans, lines = [], []
@@ -970,6 +1020,8 @@ def run(ctx, rep, cases=None):
             rep.count("node:" + kd)
         rep.count("fixed:%d-of-%d" % (len(cs["sigma"]), len(cs["params"])))
         rep.count("remaining-param-rows:%d" % cs["k"])
+        if cs.get("long_names"):
+            rep.count("multi-character-variable-names")
         if cs["stage_b"] and len(cs["stage_b"]) < len(cs["sigma"]):
             rep.count("two-stage-evaluation")
         if im.get("samples_skipped") and cs["mode"] not in ("slice", "prod"):
@@ -984,6 +1036,7 @@ def run(ctx, rep, cases=None):
         judge(cs, im, expand(cs, replies[a:a + n]), sr, sm, rep)
     user_volume_stream(ctx, rep)
     multi_slice_stream(ctx, rep)
+    dtype_stream(ctx, rep)
     malformed_stream(ctx, rep)
     rebinding_stream(ctx, rep)
     opaque_stream(ctx, rep)
@@ -1242,6 +1295,180 @@ def multi_slice_judge(cases, rep):
                 rep.disagree("drivers/C17.lean slices: membership (multi-variable factor)", dict(desc, point=pt), g_, r_)
 
 
+def dtype_stream(ctx, rep):
+    """float64 pipelines: the values of D(**values), the remaining parameter rows and the points are float64 tensors —
+    values that float32 cannot represent (0.1, 1/3, ...) and large magnitudes (1e8 + 0.5: float32 spacing 8) — or a
+    mix of float64 and float32.  D(**values) must behave like D evaluated at the rows `values` in the precision the
+    user supplied: membership (where the exact evaluation is not a tie), volume, bounding box (1e-12 relative),
+    their dtypes, same-seed samples (or membership of the samples in D at the values)."""
+    tp = common.use_repo()
+    import torch
+    rng = ctx.rng
+    cases = []
+    SMALL = [0.1, 1 / 3, 0.7, 2.3, 0.3, 1e-3 + 1e-9]
+    LARGE = [1e8 + 0.5, 3e7 + 0.25, -1e8 - 0.5, 16777217.0, 123456789.125]
+    for i in range(ctx.scale(26, 400)):
+        params = rng.sample(PARAMS, rng.choice([1, 2]))
+        g = Gen17(rng, params=params, p_dep=0.85)
+        kind = rng.choice(["interval", "circle", "solid1", "solid2", "solid2", "translate", "bdry", "side"])
+        if kind == "interval":
+            node = g.prim1("y")
+        elif kind == "circle":
+            node = g.prim2("x")
+        elif kind == "solid1":
+            g.allow_rotate = False
+            node = g.solid(2, "y")
+        elif kind == "solid2":
+            g.allow_rotate = False
+            node = g.solid(2, "x")
+        elif kind == "translate":
+            node = Node("translate", "x", [g.vec([dy(rng, -2, 2), dy(rng, -2, 2)])], [g.prim2("x")])
+        elif kind == "bdry":
+            node = Node("bdry", None, [], [g.prim(rng.choice(["x", "y"]))])
+        else:
+            node = Node(rng.choice(["bdryL", "bdryR"]), None, [], [g.prim1("y")])
+        if not node.free_vars():
+            continue
+        large = rng.random() < 0.4
+        fixed = [p_ for p_ in params if rng.random() < 0.7] or [params[0]]
+        val = lambda: Fr(rng.choice(LARGE if large else SMALL))            # exact value of the float64 number
+        sigma = {p_: [val()] for p_ in fixed}
+        rest = [p_ for p_ in params if p_ not in fixed]
+        prow = [{p_: [val()] for p_ in rest}]
+        env = dict(sigma, **prow[0])
+        # queries: near the edges of the leaves (exact rationals -> nearest float64), and random points around them
+        near = []
+        try:
+            c05.near_points(node, env, rng, near)
+        except Exception:
+            near = []
+        var = node.vars()[0]
+        near = [[Fr(float(a)) for a in q_] for q_ in near if len(q_) == geomgen.DIM[var]]
+        rows = [({var: q_}, 0) for q_ in near[:30]]
+        for q_ in near[:10]:
+            rows.append(({var: [a + Fr(rng.randint(-64, 64), 64) for a in q_]}, 0))
+        if not rows:
+            continue
+        mixed = rng.choice(["all64", "all64", "points32", "rows32"])
+        cases.append(dict(node=node, kind=kind, sigma=sigma, rest=rest, prow=prow, rows=rows, large=large, mixed=mixed, id=i))
+    dtype_judge(cases, rep)
+
+
+def dtype_judge(cases, rep):
+    tp = common.use_repo()
+    import torch
+    lines = [f"pevals {TOL} {cs['node'].tokens()} {env_tokens(cs['sigma'])} {rows_tokens([(frs(pt), j) for pt, j in cs['rows']], [frs(p_) for p_ in cs['prow']])}"
+             for cs in cases]
+    replies = common.run_driver("C17", lines)
+    f64 = torch.float64
+    for cs, rl in zip(cases, replies):
+        node, sigma, rest, prow = cs["node"], cs["sigma"], cs["rest"], cs["prow"]
+        mag = max([abs(float(a)) for v_ in list(sigma.values()) + list(prow[0].values()) for a in v_] + [1.0])
+        thr = Fr(1, 10 ** 12) * int(1 + mag)          # float64 rounding relative to shapes of size ~1
+        rep.count("dtype-stream:" + cs["kind"] + (":large" if cs["large"] else ":small") + ":" + cs["mixed"])
+        pdt = torch.float32 if cs["mixed"] == "points32" else f64
+        rdt = torch.float32 if cs["mixed"] == "rows32" else f64
+        var = node.vars()[0]
+        # float32 points: only where float32 holds the coordinates exactly
+        if pdt == torch.float32:
+            rows = [(pt, j) for pt, j in cs["rows"] if all(Fr(float(torch.tensor(float(a), dtype=torch.float32))) == a for a in pt[var])]
+        else:
+            rows = cs["rows"]
+        if not rows:
+            continue
+        keep = [i_ for i_, r_ in enumerate(cs["rows"]) if r_ in rows]
+        desc = dict(stream="dtype", expression=node.tokens(), dom=node.describe(), values={k_: float(v_[0]) for k_, v_ in sigma.items()},
+                    remaining_row={k_: float(v_[0]) for k_, v_ in prow[0].items()}, value_dtype="float64",
+                    point_dtype=str(pdt), row_dtype=str(rdt), id=cs["id"],
+                    case=dict(kind=cs["kind"], sigma=frs(sigma), rest=rest, prow=[frs(p_) for p_ in prow], large=cs["large"], mixed=cs["mixed"],
+                              rows=[(frs(pt), j) for pt, j in cs["rows"]]))
+        call = "D(" + ", ".join(f"{k_}=float64 {float(v_[0])!r}" for k_, v_ in sigma.items()) + ")"
+        D = to_tp(node, tp)
+        kw = {k_: torch.tensor([[float(v_[0])]], dtype=f64) for k_, v_ in sigma.items()}
+        E, e0 = attempt(lambda: D(**kw))
+        if e0:
+            if not e0.startswith("timeout"):
+                rep.fail(f"{call} raised {e0}", desc)
+            continue
+
+        def prm(names, envs, dt):
+            names = list(names)
+            if not names:
+                return tp.spaces.Points.empty()
+            return tp.spaces.Points(torch.tensor([[float(e_[n_][0]) for n_ in names] for e_ in envs], dtype=dt), _space(tp, names))
+        n = len(rows)
+        pts = tp.spaces.Points(torch.tensor([[float(a) for a in pt[var]] for pt, _ in rows], dtype=pdt), node.space(tp))
+        full_names = list(sigma) + rest
+        full = dict(sigma, **prow[0])
+        # D at the values: the fixed values in float64 as the user gave them, the remaining row in its own dtype —
+        # one Points object has one dtype, so a float32 remaining row is promoted exactly like points.join(params) does
+        full_rows = prm(full_names, [full] * n, f64)
+        rest_rows = prm(rest, [prow[0]] * n, rdt)
+        ref, e1 = attempt(D._contains, pts, full_rows)
+        got, e2 = attempt(E._contains, pts, rest_rows)
+        if e1 and e2:
+            rep.count("dtype-stream:membership-both-raise")
+        elif e2 and not e2.startswith("timeout"):
+            rep.fail(f"{call}._contains({pdt} points) raised {e2} while D._contains with the float64 values as parameters answers", desc)
+        elif not e1 and not e2:
+            ref = [bool(b) for b in ref.reshape(-1).tolist()]
+            got = [bool(b) for b in got.reshape(-1).tolist()]
+            rls = rl.split(";")
+            for idx, (pt, _) in enumerate(rows):
+                c1_, c2_, _, mg = rls[keep[idx]].split()
+                if mg == "none" or Fr(mg) <= thr or cs["mixed"] == "rows32":
+                    rep.count("dtype-stream:tie-or-mixed(skipped)")
+                    continue
+                rep.count("dtype-stream:membership-decided")
+                if got[idx] != ref[idx] or (c1_ != "none" and got[idx] != (c1_ == "1")):
+                    rep.fail(f"{call}._contains answers {got[idx]} at {var} = {[float(a) for a in pt[var]]} ({pdt}); D._contains with the same float64 "
+                             f"values supplied as parameters answers {ref[idx]}; exact evaluation: {'inside' if c1_ == '1' else 'outside'} "
+                             f"with slack {float(Fr(mg)):.3g}", dict(desc, point=frs(pt)))
+                    break
+        if cs["mixed"] == "rows32":
+            continue            # float32 remaining rows are not the values the original sees in float64: only membership above
+        k1 = prm(rest, prow, f64)
+        kf = prm(full_names, [full], f64)
+        for name, fE, fD in (("volume", lambda: E.volume(k1), lambda: D.volume(kf)), ("bounding_box", lambda: E.bounding_box(k1), lambda: D.bounding_box(kf))):
+            a_, ea = attempt(fD)
+            b_, eb = attempt(fE)
+            if ea or eb:
+                if eb and not ea and not eb.startswith("timeout"):
+                    rep.fail(f"{call}.{name} raised {eb} while D.{name} at the float64 values works", desc)
+                continue
+            a_, b_ = torch.as_tensor(a_), torch.as_tensor(b_)
+            rep.count("dtype-stream:" + name + "-compared")
+            if not close_lists(flat(b_), flat(a_), 1e-12 * (1 + mag)):
+                rep.fail(f"{call}.{name} = {flat(b_)} but D.{name} at the same float64 values = {flat(a_)} (float64 pipeline, tolerance 1e-12 relative)", desc)
+            elif a_.dtype != b_.dtype:
+                rep.fail(f"{call}.{name} has dtype {b_.dtype}, D.{name} at the same float64 values {a_.dtype}", desc)
+        if cs["kind"] in ("bdry", "side"):
+            continue
+        for how in ("random", "grid"):
+            def draw(dom, p_):
+                torch.manual_seed(77 + cs["id"])
+                return (dom.sample_random_uniform if how == "random" else dom.sample_grid)(n=5, params=p_)
+            a_, ea = attempt(draw, D, kf)
+            b_, eb = attempt(draw, E, k1)
+            if ea or eb:
+                if eb and not ea and not eb.startswith("timeout"):
+                    rep.fail(f"{call}.sample_{how} raised {eb} while D's sampler at the float64 values works", desc)
+                continue
+            if len(a_) != len(b_) or not torch.isfinite(b_.as_tensor).all():
+                continue
+            if close_lists(flat(b_.as_tensor), flat(a_.as_tensor), 1e-12 * (1 + mag)):
+                rep.count("dtype-stream:samples-identical")
+                continue
+            inside, ei = attempt(D._contains, b_, prm(full_names, [full] * len(b_), f64))
+            inside_ref, _ = attempt(D._contains, a_, prm(full_names, [full] * len(a_), f64))
+            if ei is None and inside_ref is not None and bool(inside_ref.all()) and not bool(inside.all()):
+                bad = b_.as_tensor[(~inside.reshape(-1)).nonzero()[0]].flatten().tolist()
+                rep.fail(f"{how} samples of {call} differ from those D draws at the same float64 values with the same seed, and e.g. {bad} lies "
+                         f"outside D at these values (D's own samples are all inside)", dict(desc, how=how))
+            else:
+                rep.count("dtype-stream:samples-differ-but-inside")
+
+
 def malformed_stream(ctx, rep):
     """expressions the constructors reject (a parameter depends on the node's own variable, the second factor
     of a product depends on the first, both directions, a translation vector depending on the own variable):
@@ -1391,6 +1618,13 @@ def replay(ctx, obj):
                   how=inp["given_as"], rest=inp["rest"], prow=inp["prow"], rows=rows, f_first=inp["f_first"], shape=inp["shape"])
         rep.case(dict(dom=inp["dom"]), True)
         multi_slice_judge([cs], rep)
+        return common.finish(ctx, rep, lean)
+    if inp.get("stream") == "dtype":
+        c_ = inp["case"]
+        cs = dict(node=geomgen.from_json(inp["dom"]), kind=c_["kind"], sigma=unfrs(c_["sigma"]), rest=c_["rest"], prow=[unfrs(p_) for p_ in c_["prow"]],
+                  rows=[(unfrs(pt), j) for pt, j in c_["rows"]], large=c_["large"], mixed=c_["mixed"], id=inp["id"])
+        rep.case(dict(dom=inp["dom"]), True)
+        dtype_judge([cs], rep)
         return common.finish(ctx, rep, lean)
     if inp.get("stream") == "malformed":
         malformed_stream(ctx, rep)
